@@ -103,7 +103,15 @@ def prepare(case):
     df = default_fields_for(case["world"]["salt"]) if case.get("default_resolved", True) else None
     sync_schema, eff = H.make_schema(spec, case["mode"], wrap=submit_wrap(case["world"]["salt"]) if case.get("default_resolved", True) else None,
                                      default_fields=df)
-    async_schema, _ = H.make_schema(spec, case["mode"], wrap=SR.delivery_wrap(modes_for(case["world"]["salt"])), default_fields=df)
+    modes, sw = modes_for(case["world"]["salt"]), submit_wrap(case["world"]["salt"])
+
+    def async_wrap(resolver, tn, fd):
+        # coroutine resolvers gated by the scheduler; of the plain ones a quarter hand their work to the runtime themselves
+        # (on the asyncio runtime that is an asyncio Future the executor has to await, not a coroutine)
+        if modes(tn, fd["name"]) == "coro":
+            return SR.async_wrap(resolver, tn, fd)
+        return sw(resolver, tn, fd) if case.get("default_resolved", True) else resolver
+    async_schema, _ = H.make_schema(spec, case["mode"], wrap=async_wrap, default_fields=df)
     req = case["request"]
     try:
         if validate_ast(sync_schema, parse(req["text"])).errors:
